@@ -247,7 +247,13 @@ func checkHist(h histCase) *vt.Fail {
 			return f
 		}
 		now := time.Now()
-		if terr != nil {
+		// the record cannot be read or written when trim.txt is a directory: a trim is due, it has to do its work, and
+		// only then may it report that the new record could not be written
+		recordIsDir := false
+		if st, err := os.Lstat(filepath.Join(d, "trim.txt")); err == nil && st.IsDir() {
+			recordIsDir = true
+		}
+		if terr != nil && !recordIsDir {
 			return vt.Failf("trim-error", "%s: Trim: %v", ctx, terr)
 		}
 		after := snapshot(d)
@@ -303,11 +309,15 @@ func checkHist(h histCase) *vt.Fail {
 			}
 			b, rerr := os.ReadFile(filepath.Join(d, "trim.txt"))
 			v, perr := strconv.ParseInt(strings.TrimSpace(string(b)), 10, 64)
-			if rerr != nil || perr != nil || time.Unix(v, 0).Before(t0.Add(-margin)) || time.Unix(v, 0).After(now.Add(margin)) {
-				return vt.Failf("trim-time-not-recorded", "%s: a trim was due but trim.txt holds %q (err %v) instead of the current time", ctx, b, rerr)
+			if recordIsDir {
+				trimState = "garbage" // nothing can be recorded; the next trim is due again
+			} else {
+				if rerr != nil || perr != nil || time.Unix(v, 0).Before(t0.Add(-margin)) || time.Unix(v, 0).After(now.Add(margin)) {
+					return vt.Failf("trim-time-not-recorded", "%s: a trim was due but trim.txt holds %q (err %v) instead of the current time", ctx, b, rerr)
+				}
+				trimState = "value"
+				lastTrim = time.Unix(v, 0)
 			}
-			trimState = "value"
-			lastTrim = time.Unix(v, 0)
 		} else if !notDue {
 			// grey zone: learn what happened
 			if b, err := os.ReadFile(filepath.Join(d, "trim.txt")); err == nil {
@@ -474,18 +484,61 @@ func checkHist(h histCase) *vt.Fail {
 			mt := time.Now().Add(-time.Duration(o.Sec) * time.Second)
 			os.Chtimes(p, mt, mt)
 			files[o.Name] = &frec{entry: false, exists: true, lastUse: mt}
+		case "linkentry":
+			// the index entry of an id (or its output file, C odd) is moved elsewhere and linked back - a cache whose files
+			// were relocated. A lookup refreshes what the link leads to, and that is the time Trim has to judge by.
+			if _, ok := stored[o.ID]; !ok {
+				continue
+			}
+			rel := idxRel(o.ID)
+			if o.C%2 == 1 {
+				rel = datRel(stored[o.ID])
+			}
+			p := filepath.Join(d, rel)
+			if st, err := os.Lstat(p); err != nil || st.Mode()&os.ModeSymlink != 0 {
+				continue
+			}
+			to := filepath.Join(d, "relocated", filepath.Base(rel))
+			os.MkdirAll(filepath.Dir(to), 0o777)
+			if os.Rename(p, to) != nil {
+				continue
+			}
+			if os.Symlink(to, p) != nil {
+				os.Rename(to, p)
+				continue
+			}
+		case "plantdir":
+			// something in the way that Trim cannot remove: a non-empty directory whose name looks like a stale entry, in
+			// the sub-directory scanned first. Trim leaves it alone (it is no entry) - and goes on with everything else.
+			p := filepath.Join(d, "00", strings.Repeat("0", 64)+"-d")
+			os.MkdirAll(p, 0o777)
+			inner := filepath.Join(p, "keep")
+			if err := os.WriteFile(inner, []byte("not a cache entry"), 0o666); err != nil {
+				continue
+			}
+			mt := time.Now().Add(-40 * day)
+			os.Chtimes(inner, mt, mt)
+			os.Chtimes(p, mt, mt)
+			rel, _ := filepath.Rel(d, inner)
+			files[rel] = &frec{entry: false, exists: true, lastUse: mt}
 		case "trimtxt":
 			tp := filepath.Join(d, "trim.txt")
 			switch {
 			case o.Txt == "missing":
-				os.Remove(tp)
+				os.RemoveAll(tp)
 				trimState = "missing"
+			case o.Txt == "DIR":
+				os.RemoveAll(tp)
+				os.MkdirAll(filepath.Join(tp, "inner"), 0o777)
+				trimState = "garbage"
 			case o.Txt != "":
+				os.RemoveAll(tp)
 				os.WriteFile(tp, []byte(o.Txt), 0o666)
 				trimState = "garbage"
 			default:
 				v := time.Now().Add(-time.Duration(o.Sec) * time.Second)
 				content := formatRecord(o.Fmt, v.Unix())
+				os.RemoveAll(tp)
 				os.WriteFile(tp, []byte(content), 0o666)
 				if rv, ok := recordValue(content); ok {
 					trimState = "value"
@@ -514,6 +567,10 @@ func descr(o op) string {
 		return fmt.Sprintf("%s(id%d)", o.Op, o.ID)
 	case "outputfile":
 		return fmt.Sprintf("outputfile(c%d)", o.C)
+	case "linkentry":
+		return fmt.Sprintf("linkentry(id%d,%s file moved away and linked back)", o.ID, map[int]string{0: "index", 1: "output"}[o.C%2])
+	case "plantdir":
+		return "plant(non-empty directory named like a stale entry)"
 	case "advance":
 		return fmt.Sprintf("advance(%v)", time.Duration(o.Sec)*time.Second)
 	case "plant":
@@ -547,7 +604,7 @@ const (
 
 var advances = []int64{5 * mn, 59 * mn, 61 * mn, 3 * hr, 23 * hr, 25 * hr, 4*dy + 23*hr, 5*dy - 5*mn, 5*dy + 5*mn, 5*dy + hr - 5*mn, 5*dy + hr + 5*mn, 6 * dy, 30 * dy, 4 * dy, 2 * dy}
 var plantNames = []string{"README", "fuzz/corpus/x", "fuzz/a-d.txt", "00/foreign", "00/abc-a.bak", "ff/x.tmp", "ff/0123-dx", "log.txt", "trim.txt.bak"}
-var trimTxts = []string{"", "x", "12x", "99999999999999999999999", "-", " \n"}
+var trimTxts = []string{"", "x", "12x", "99999999999999999999999", "-", " \n", "DIR"}
 
 // genSkeleton builds a history along the life cycle the statement talks about: store, use within / beyond the
 // mtime granularity, let time pass up to around the five-day limit, store fresh entries, trim when due, trim again.
@@ -569,6 +626,9 @@ func genSkeleton(t *rapid.T) histCase {
 		for i, nl := 0, rapid.IntRange(0, 3).Draw(t, "nlook"); i < nl; i++ {
 			add(op{Op: rapid.SampledFrom([]string{"get", "getbytes", "getfile", "outputfile"}).Draw(t, "look"), ID: rapid.IntRange(0, nIDs-1).Draw(t, "id"), C: rapid.IntRange(0, nCont-1).Draw(t, "c")})
 		}
+	}
+	if rapid.IntRange(0, 5).Draw(t, "obstacle") == 2 {
+		add(op{Op: "plantdir"})
 	}
 	add(op{Op: "advance", Sec: rapid.SampledFrom([]int64{4*dy + 23*hr, 5*dy - 5*mn, 5*dy + 5*mn, 5*dy + hr - 5*mn, 5*dy + hr + 5*mn, 6 * dy, 4 * dy}).Draw(t, "big")})
 	for i, nf := 0, rapid.IntRange(0, 2).Draw(t, "nfresh"); i < nf; i++ {
@@ -643,6 +703,14 @@ func genHist(t *rapid.T) histCase {
 		case 13:
 			o.Op = "outputfile"
 		case 14:
+			if rapid.IntRange(0, 3).Draw(t, "plantdir") == 1 {
+				o.Op = "plantdir"
+				break
+			}
+			if rapid.IntRange(0, 2).Draw(t, "linkentry") == 1 {
+				o.Op = "linkentry"
+				break
+			}
 			o.Op = "plant"
 			o.Name = rapid.SampledFrom(plantNames).Draw(t, "pname")
 			o.Sec = rapid.SampledFrom([]int64{0, hr, 2 * dy, 6 * dy, 40 * dy}).Draw(t, "page")
@@ -766,6 +834,13 @@ var scenarios = []histCase{
 	{Ops: []op{{Op: "put", ID: 0, C: 1}, {Op: "advance", Sec: 6 * dy}, {Op: "trimtxt", Sec: hr, Fmt: "%d\n%d"}, {Op: "trim"}}},
 	{Ops: []op{{Op: "put", ID: 0, C: 1}, {Op: "advance", Sec: 6 * dy}, {Op: "trimtxt", Sec: hr, Fmt: "%d.5"}, {Op: "trim"}}},
 	{Ops: []op{{Op: "put", ID: 0, C: 1}, {Op: "advance", Sec: 6 * dy}, {Op: "trimtxt", Sec: hr, Fmt: "00%d"}, {Op: "trim"}}},
+	// entry files that are links: stale by what they lead to, fresh after a lookup
+	{Ops: []op{{Op: "put", ID: 0, C: 1}, {Op: "linkentry", ID: 0, C: 0}, {Op: "advance", Sec: 6 * dy}, {Op: "trim"}}},
+	{Ops: []op{{Op: "put", ID: 0, C: 1}, {Op: "linkentry", ID: 0, C: 1}, {Op: "advance", Sec: 6 * dy}, {Op: "getbytes", ID: 0}, {Op: "trim"}, {Op: "getbytes", ID: 0}}},
+	// the record is a directory: the trim is due and does its work although it can neither read nor write the record
+	{Ops: []op{{Op: "put", ID: 0, C: 1}, {Op: "advance", Sec: 6 * dy}, {Op: "trimtxt", Txt: "DIR"}, {Op: "trim"}}},
+	// an obstacle Trim cannot remove in the first sub-directory: the stale entry elsewhere still goes
+	{Ops: []op{{Op: "put", ID: 0, C: 1}, {Op: "plantdir"}, {Op: "advance", Sec: 6 * dy}, {Op: "trim"}}},
 	// another user's trim (due: no record yet) just after this Put has created its empty output file, and part-way through
 	{Ops: []op{{Op: "put", ID: 0, C: 1, TrimAt: 1}, {Op: "getfile", ID: 0}}},
 	{Ops: []op{{Op: "put", ID: 1, C: 2}, {Op: "advance", Sec: 6 * dy}, {Op: "put", ID: 0, C: 1, TrimAt: 71}, {Op: "getbytes", ID: 0}, {Op: "get", ID: 1}}},
